@@ -523,6 +523,45 @@ def run_chunked(units, nregs, cuts):
             "escaped": escaped, "region": sorted(regs), "chunks": [len(c) for c in chunks]}
 
 
+def run_maxsize(one_segment, order):
+    """pipelined requests whose replies have the LARGEST legal sizes: 125 registers (PDU 252 bytes), a diagnostic
+    echo of 125 words (PDU 253 bytes = MBAP length 254, the maximum) and a small read; replies in the given
+    order, each in a segment of its own or all in one.  Every deferred must fire once with its own reply."""
+    from pymodbus.client.asynchronous.twisted import ModbusClientProtocol
+    from pymodbus.factory import ClientDecoder
+    from pymodbus.transaction import ModbusSocketFramer
+    from pymodbus.register_read_message import ReadHoldingRegistersRequest, ReadHoldingRegistersResponse
+    from pymodbus.diag_message import ReturnQueryDataRequest, ReturnQueryDataResponse
+    proto = ModbusClientProtocol()
+    tr = Transport()
+    proto.transport = tr
+    proto.connectionMade()
+    builder = ModbusSocketFramer(ClientDecoder())
+    words = [(0x0100 + k) & 0xFFFF for k in range(125)]
+    plan = [(ReadHoldingRegistersRequest(address=0, count=125, unit=1), ReadHoldingRegistersResponse([7] * 125)),
+            (ReturnQueryDataRequest(words, unit=1), ReturnQueryDataResponse(words)),
+            (ReadHoldingRegistersRequest(address=9, count=1, unit=1), ReadHoldingRegistersResponse([42]))]
+    got, frames, escaped = {}, [], []
+    for i, (rq, rsp) in enumerate(plan):
+        d = proto.execute(rq)
+        tid = int.from_bytes(tr.writes[-1][0:2], "big")
+        d.addCallbacks(lambda x, i=i: got.setdefault(i, []).append(("cb", int(x.transaction_id), type(x).__name__)),
+                       lambda f, i=i: got.setdefault(i, []).append(("err", pyexn(f.value))))
+        rsp.transaction_id, rsp.unit_id = tid, 1
+        frames.append((tid, type(rsp).__name__, builder.buildPacket(rsp)))
+    pkts = [frames[j][2] for j in order]
+    for c in ([b"".join(pkts)] if one_segment else pkts):
+        try:
+            proto.dataReceived(c)
+        except Exception as e:  # noqa: BLE001
+            escaped.append(pyexn(e))
+    lost = [i for i in range(len(plan)) if not got.get(i)]
+    wrong = [i for i in range(len(plan)) if got.get(i) and got[i] != [("cb", frames[i][0], frames[i][1])]]
+    return {"units": [1, 1, 1], "nregs": 125, "cuts": [], "one_segment": one_segment, "order": list(order),
+            "frame_sizes": [len(f[2]) for f in frames], "lost": lost, "wrong": wrong, "escaped": escaped, "region": [],
+            "maxsize": True}
+
+
 def extra_checks(tier):
     r = common.rng("C16.chunks")
     runs = []
@@ -533,9 +572,12 @@ def extra_checks(tier):
                 runs.append(run_chunked(units, nregs, [cut]))
             for _ in range(20 if tier == "quick" else 300):
                 runs.append(run_chunked(units, nregs, sorted(r.sample(range(1, total), min(total - 1, r.choice([2, 3, 4]))))))
+    for one in (False, True):
+        for order in itertools.permutations(range(3)):
+            runs.append(run_maxsize(one, order))
     failures = [o for o in runs if o["lost"] or o["wrong"] or o["escaped"]]
     return {"chunked": {"evaluations": len(runs), "failures": failures, "broken": [],
-                        "keys": [(tuple(o["units"]), o["nregs"], tuple(o["cuts"])) for o in runs if not (o["lost"] or o["wrong"])],
+                        "keys": [(tuple(o["units"]), o["nregs"], tuple(o["cuts"]), o.get("one_segment"), tuple(o.get("order", ()))) for o in runs if not (o["lost"] or o["wrong"])],
                         "in_known_region": sum(1 for o in failures if o["region"]),
                         "samples": failures[:1] + runs[:1]}}
 
@@ -570,6 +612,9 @@ def replay_finding(f):
 
 def replay_case(suite, desc):
     from lib import coqrun
+    if suite == "chunked" and desc.get("maxsize"):
+        o = run_maxsize(desc["one_segment"], desc["order"])
+        return bool(o["lost"] or o["wrong"] or o["escaped"])
     if suite == "chunked":
         o = run_chunked(desc["units"], desc["nregs"], desc["cuts"])
         print(o)
